@@ -29,7 +29,7 @@ func init() {
 		},
 		Batches: tiered(480, 9600),
 		Run:     runC02,
-		Timeout: timeoutFor(8*time.Minute, 40*time.Minute),
+		Timeout: timeoutFor(3*time.Minute, 40*time.Minute),
 	})
 }
 
